@@ -32,7 +32,8 @@ KS = [2, 0.5, 8, 1024, 3, 0.1, 1e6, 1e-6]
 
 
 @st.composite
-def cases(draw, kind):
+def cases(draw, slot):
+    kind = slot["kind"]
     if kind == "instances":
         spec = draw(MM.small_specs(shapes=("matmul", "chain2", "chain2", "elementwise2", "matvec")))
         j = draw(st.sampled_from([2, 3, 4]))
@@ -46,7 +47,7 @@ def cases(draw, kind):
         metrics = draw(st.sampled_from(["ENERGY", "LATENCY", "ENERGY_DELAY_PRODUCT"]))
         return {"spec": spec, "kind": kind, "k": j, "which": which, "metrics": metrics}
     spec = draw(MM.small_specs())
-    k = draw(st.sampled_from(KS))
+    k = slot["k"]
     if kind == "energy":
         metrics = draw(st.sampled_from(["ENERGY", "ENERGY", "ENERGY|LATENCY", "ENERGY_DELAY_PRODUCT"]))
     else:
@@ -164,25 +165,17 @@ def check(desc, col):
 
 
 N = {"quick": 48, "thorough": 480}
-NSHARDS = 16
-
-
 KINDS = ["energy", "throughput", "instances"]
 
 
 def shards(tier, seed):
-    per = N[tier] // NSHARDS
-    return [{"k": k, "kinds": [KINDS[(k * per + i) % 3] for i in range(per)], "seed": seed} for k in range(NSHARDS)]
+    # kinds in turn; every k of KS equally often for each of the two cost scalings
+    slots = [{"kind": KINDS[i % 3], "k": KS[(i // 3 + (3 if i % 3 == 1 else 0) + seed) % len(KS)]} for i in range(N[tier])]
+    return MM.deal(slots, tier, seed)
 
 
 def run_shard(shard, col):
-    counts = {}
-    for kind in shard["kinds"]:
-        counts[kind] = counts.get(kind, 0) + 1
-    for kind, n in sorted(counts.items()):
-        MM.drive_unbiased(cases(kind), check, n=n, seed=hash32(shard["seed"], "C19", shard["k"], kind), col=col)
-        if col.failures:
-            break
+    MM.run_slots(shard, col, "C19", cases, check)
 
 
 def replay(desc, col):
